@@ -1,7 +1,155 @@
-From Coq Require Import ZArith List.
-Require Import Verif.Gen.Gen_reusable_vector Verif.RV.RVModel Verif.RV.RVProofs.
+(* C12 - reusable containers: match std behaviour; clearing keeps capacity for reuse.
+   Only statements here; every proof is `exact <lemma of RV/RVProofs.v>`.
+
+   Model (RV/RVModel.v): ReusableVector = (size, constructed_size, capacity, cells) with per-cell ghost state
+   Raw / Con v; [err] is raised by a construct over a live element, by an assign / move / destroy of raw storage
+   and by any access beyond the capacity; nctor / ndtor count element constructor / destructor calls and nalloc
+   the element slots taken from the monotonic resource.  mva / mvc / smv say what a move leaves in its source
+   (move-assign, move-construct, self-move-assign): all theorems hold for every choice of them.
+   Specification: std::vector as a list (spec_step), two vectors for swap / copy / move (spec_step2).
+
+   Hypotheses: [wf s] is the invariant (Example c12_wf_empty: the empty vector satisfies it; rv_inv shows it is
+   kept); [valid] are the preconditions of the std operations (positions within the vector, pop on non-empty);
+   arguments never alias the vector's own elements (values are passed by value in the model).
+
+   Gap, stated at full strength and refuted: insert of ZERO elements is not a no-op in the code -
+   prepare_for_insert(index, 0) executes data[i] = std::move(data[i]) for every constructed i >= index.  The
+   refinement therefore carries the side condition "self-move-assignment of the element type is the identity
+   (int, SwissString, nested ReusableVector) or the sequence has no zero-length insert"; without it the statement
+   is false (c12_zero_insert_refuted, element = libstdc++ std::basic_string; replayed on the real code by
+   checks/c12.py, finding zero-insert-selfmove).
+
+   Not covered by theorems (monitored on the real classes only): SwissString against std::string, the string /
+   nested element capacities inside a rebuilt vector, protobuf messages, space_allocated of the real resource.
+   c12_manager_cycle states what the code guarantees for a rebuild: capacity >= every constructed slot; capacity
+   that was reserved but never constructed is NOT kept by a rebuild (metadata.capacity = max(_constructed_size, .)). *)
+From Coq Require Import ZArith List Bool.
+Require Import Verif.Gen.Gen_reusable_vector Verif.RV.RVModel Verif.RV.RVLoops Verif.RV.RVOps Verif.RV.RVProofs.
 Import ListNotations.
 
-Theorem c12_stub : size empty_vec = 0.
-Proof. exact rv_stub. Qed.
-Print Assumptions c12_stub.
+(* 1. same observable contents as std::vector, for every operation sequence on one vector ... *)
+Theorem c12_refines_list : forall (mva : Z -> Z -> Z) (mvc smv : Z -> Z) ops s,
+  wf s -> valid (abs s) ops = true ->
+  ((forall v, smv v = v) \/ forallb (fun o => negb (zero_insert o)) ops = true) ->
+  abs (run mva mvc smv s ops) = fold_left spec_step ops (abs s).
+Proof. exact rv_refines_list. Qed.
+Print Assumptions c12_refines_list.
+
+(* ... and on two vectors sharing a resource with swap, copy-assignment and move-assignment *)
+Theorem c12_refines_list2 : forall (mva : Z -> Z -> Z) (mvc smv : Z -> Z) ops a b,
+  wf a -> wf b -> valid2 (abs a, abs b) ops = true ->
+  ((forall v, smv v = v) \/ forallb (fun o => negb (zero_insert2 o)) ops = true) ->
+  (abs (fst (run2 mva mvc smv (a, b) ops)), abs (snd (run2 mva mvc smv (a, b) ops))) =
+  fold_left spec_step2 ops (abs a, abs b).
+Proof. exact rv_refines_list2. Qed.
+Print Assumptions c12_refines_list2.
+
+(* 2. size <= constructed <= capacity; cells below constructed hold live elements, all others are raw; no
+      construct-over-constructed / assign-over-raw ever happened (err); constructor and destructor calls differ by
+      exactly the constructed elements *)
+Theorem c12_inv : forall (mva : Z -> Z -> Z) (mvc smv : Z -> Z) ops s,
+  wf s -> valid (abs s) ops = true ->
+  ((forall v, smv v = v) \/ forallb (fun o => negb (zero_insert o)) ops = true) ->
+  let s' := run mva mvc smv s ops in
+  size s' <= csize s' /\ csize s' <= cap s' /\ err s' = false /\
+  (forall j, j < csize s' -> exists v, cells s' j = Con v) /\ (forall j, csize s' <= j -> cells s' j = Raw) /\
+  nctor s' = ndtor s' + csize s'.
+Proof. exact rv_inv. Qed.
+Print Assumptions c12_inv.
+
+Theorem c12_inv2 : forall (mva : Z -> Z -> Z) (mvc smv : Z -> Z) ops a b,
+  wf a -> wf b -> valid2 (abs a, abs b) ops = true ->
+  ((forall v, smv v = v) \/ forallb (fun o => negb (zero_insert2 o)) ops = true) ->
+  wf (fst (run2 mva mvc smv (a, b) ops)) /\ wf (snd (run2 mva mvc smv (a, b) ops)).
+Proof. exact rv_inv2. Qed.
+Print Assumptions c12_inv2.
+
+(* 3. logical clear: equal to a freshly constructed (empty) vector, capacity, constructed elements and every cell kept,
+      nothing constructed, destroyed or allocated *)
+Theorem c12_clear_keeps_capacity : forall s, wf s ->
+  wf (clear s) /\ abs (clear s) = [] /\ size (clear s) = 0 /\ cap (clear s) = cap s /\ csize (clear s) = csize s /\
+  nalloc (clear s) = nalloc s /\ nctor (clear s) = nctor s /\ ndtor (clear s) = ndtor s /\
+  forall j, cells (clear s) j = cells s j.
+Proof. exact clear_keeps. Qed.
+Print Assumptions c12_clear_keeps_capacity.
+
+(* no operation sequence ever shrinks the capacity or the number of constructed elements *)
+Theorem c12_capacity_never_shrinks : forall (mva : Z -> Z -> Z) (mvc smv : Z -> Z) ops s,
+  wf s -> valid (abs s) ops = true ->
+  ((forall v, smv v = v) \/ forallb (fun o => negb (zero_insert o)) ops = true) ->
+  cap s <= cap (run mva mvc smv s ops) /\ csize s <= csize (run mva mvc smv s ops).
+Proof. exact rv_capacity_never_shrinks. Qed.
+Print Assumptions c12_capacity_never_shrinks.
+
+(* 4. destroying the vector after any history balances constructors and destructors and leaves only raw storage *)
+Theorem c12_ctor_dtor_balance : forall (mva : Z -> Z -> Z) (mvc smv : Z -> Z) ops s,
+  wf s -> valid (abs s) ops = true ->
+  ((forall v, smv v = v) \/ forallb (fun o => negb (zero_insert o)) ops = true) ->
+  let d := destroy_all (run mva mvc smv s ops) in err d = false /\ nctor d = ndtor d /\ forall j, cells d j = Raw.
+Proof. exact rv_ctor_dtor_balance. Qed.
+Print Assumptions c12_ctor_dtor_balance.
+
+(* 5. one manager cycle (workload, then ReusableManager::clear) for every workload and every cadence: the instance is
+      empty and well formed again; either it was logically cleared (before the interval: same cells, capacity and
+      nothing allocated) or rebuilt from the metadata (at the interval: capacity = constructed = max of everything
+      constructed so far) *)
+Theorem c12_manager_cycle : forall (mva : Z -> Z -> Z) (mvc smv : Z -> Z) g ops,
+  wf (inst g) -> valid (abs (inst g)) ops = true ->
+  ((forall v, smv v = v) \/ forallb (fun o => negb (zero_insert o)) ops = true) ->
+  let w := run mva mvc smv (inst g) ops in let g' := mcycle mva mvc smv g ops in
+  wf (inst g') /\ abs (inst g') = [] /\ csize w <= csize (inst g') /\ csize w <= cap (inst g') /\
+  meta g <= meta g' /\ interval g' = interval g /\
+  ((S (times g) < interval g /\ recreated g' = recreated g /\ times g' = S (times g) /\ meta g' = meta g /\
+    cap (inst g') = cap w /\ csize (inst g') = csize w /\ nalloc (inst g') = nalloc w /\
+    (forall j, cells (inst g') j = cells w j))
+   \/
+   (interval g <= S (times g) /\ recreated g' = S (recreated g) /\ times g' = 0 /\
+    meta g' = Nat.max (csize w) (meta g) /\ cap (inst g') = meta g' /\ csize (inst g') = meta g')).
+Proof. exact mcycle_post. Qed.
+Print Assumptions c12_manager_cycle.
+
+(* 6. a workload whose demand fits the capacity takes nothing from the resource, and every workload fits the capacity it
+      leaves behind *)
+Theorem c12_fits_no_alloc : forall (mva : Z -> Z -> Z) (mvc smv : Z -> Z) ops s,
+  wf s -> valid (abs s) ops = true ->
+  ((forall v, smv v = v) \/ forallb (fun o => negb (zero_insert o)) ops = true) ->
+  peak (abs s) ops <= cap s -> nalloc (run mva mvc smv s ops) = nalloc s /\ cap (run mva mvc smv s ops) = cap s.
+Proof. exact rv_fits_no_alloc. Qed.
+Print Assumptions c12_fits_no_alloc.
+
+Theorem c12_peak_le_capacity : forall (mva : Z -> Z -> Z) (mvc smv : Z -> Z) ops s,
+  wf s -> valid (abs s) ops = true ->
+  ((forall v, smv v = v) \/ forallb (fun o => negb (zero_insert o)) ops = true) ->
+  peak (abs s) ops <= cap (run mva mvc smv s ops).
+Proof. exact rv_peak_le_cap. Qed.
+Print Assumptions c12_peak_le_capacity.
+
+(* converged: after the workload has run once under the manager, repeating it allocates nothing - after a logical clear
+   for every workload, after a rebuild for every workload that does not reserve beyond what it constructs *)
+Theorem c12_converged_no_growth : forall (mva : Z -> Z -> Z) (mvc smv : Z -> Z) g ops,
+  wf (inst g) -> abs (inst g) = [] -> valid [] ops = true ->
+  ((forall v, smv v = v) \/ forallb (fun o => negb (zero_insert o)) ops = true) ->
+  let g1 := mcycle mva mvc smv g ops in
+  (recreated g1 = recreated g \/ reserve_free ops = true) ->
+  nalloc (run mva mvc smv (inst g1) ops) = nalloc (inst g1) /\ cap (run mva mvc smv (inst g1) ops) = cap (inst g1).
+Proof. exact converged_no_growth. Qed.
+Print Assumptions c12_converged_no_growth.
+
+(* 7. the full-strength refinement (no side condition on zero-length inserts) is false of the code *)
+Theorem c12_zero_insert_refuted : exists (smv : Z -> Z) (ops : list op),
+  valid [] ops = true /\
+  abs (run (fun _ _ => 0%Z) (fun _ => 0%Z) smv empty_vec ops) <> fold_left spec_step ops [].
+Proof. exact zero_insert_refuted. Qed.
+Print Assumptions c12_zero_insert_refuted.
+
+(* non-vacuity: the empty vector is well formed; a concrete run exercises the reuse window (constructed > size),
+   shifts by move-assignment and reconstructs in place *)
+Example c12_wf_empty : wf empty_vec.
+Proof. exact wf_empty. Qed.
+Example c12_window :
+  let s := run (fun s _ => s) (fun v => v) (fun v => v) empty_vec
+               [AssignRange [1;2;3;4;5]%Z; Erase 2 5; InsertN 1 2 9%Z] in
+  (size s, csize s, cap s, abs s, stale s, err s) = (4, 5, 5, [1; 9; 9; 2]%Z, [3]%Z, false).
+Proof. exact window_example. Qed.
+Example c12_valid_example : valid [] [AssignRange [1;2;3;4;5]%Z; Erase 2 5; InsertN 1 2 9%Z; Reserve 20; Clear; PushBack 3%Z] = true.
+Proof. reflexivity. Qed.
